@@ -136,6 +136,48 @@ fn run(server: SocketAddr, n: u32, seg: &[usize], cut: usize) -> Result<Vec<Stri
     Ok(problems)
 }
 
+/// CONNECT _icmp over HTTP/3 with the real ICMP forwarder on interface lo: echo requests to loopback addresses (the kernel
+/// answers); the request records are cut into stream writes by `seg` (units of half records); every request gets exactly its
+/// echo reply record (same identifier and sequence number, the pinged address as source, type 0 code 0)
+fn run_icmp(server: SocketAddr, n: u32, seg: &[usize]) -> Result<Vec<String>, String> {
+    let to = Duration::from_secs(10);
+    let mut c = H3Conn::connect(server, &ClientOpts { src_ip: source_ip(n), ..Default::default() }).map_err(|e| format!("handshake: {:?}", e))?;
+    c.body_keep = 1 << 16;
+    let sid = c.request(&request_headers("CONNECT", "_icmp", &[("user-agent", b"verif-harness")]), false)?;
+    if !c.run_until(to, |c| c.streams.get(&sid).map(|s| !s.heads.is_empty() || s.ended()).unwrap_or(false)) || c.stream(sid).status(0) != 200 {
+        return Err(format!("CONNECT _icmp not answered 200 (status {})", c.stream(sid).status(0)));
+    }
+    // three requests: (identifier, destination, sequence number, data size)
+    let reqs: Vec<(u16, [u8; 4], u16, u16)> = vec![(0x5100 + n as u16, [127, 0, 0, 1], 1, 8), (0x5200 + n as u16, [127, 0, 0, 9], 7, 56), (0x5100 + n as u16, [127, 0, 0, 1], 2, 0)];
+    let wires: Vec<Vec<u8>> = reqs.iter().map(|(id, dst, seq, len)| { let mut b = vec![]; b.extend_from_slice(&id.to_be_bytes()); b.extend_from_slice(&ip16(*dst)); b.extend_from_slice(&seq.to_be_bytes()); b.push(64); b.extend_from_slice(&len.to_be_bytes()); b }).collect();
+    let unit = |u: usize| -> Vec<u8> { let w = &wires[u / 2]; if u % 2 == 0 { w[..9].to_vec() } else { w[9..].to_vec() } };
+    let mut u = 0;
+    for k in seg {
+        let mut chunk = vec![];
+        for _ in 0..*k { if u < 6 { chunk.extend(unit(u)); u += 1; } }
+        if chunk.is_empty() { continue; }
+        c.send_data(sid, &chunk, false, Duration::from_secs(5))?;
+        c.linger(Duration::from_millis(3));
+    }
+    let deadline = Instant::now() + Duration::from_secs(5);
+    while Instant::now() < deadline && c.stream(sid).body.len() < 66 && !c.stream(sid).ended() && !c.is_closed() {
+        c.linger(Duration::from_millis(10));
+    }
+    c.linger(Duration::from_millis(50));
+    let s = c.stream(sid);
+    let mut problems = vec![];
+    if s.ended() { problems.push(format!("the multiplexer stream ended (finished={} reset={:?})", s.finished, s.reset)); }
+    if s.body.len() % 22 != 0 { problems.push(format!("{} octets of replies: not a whole number of 22-octet records", s.body.len())); }
+    let mut got: Vec<(u16, [u8; 16], u8, u8, u16)> = s.body.chunks_exact(22).map(|r| { let mut a = [0u8; 16]; a.copy_from_slice(&r[2..18]); (u16::from_be_bytes([r[0], r[1]]), a, r[18], r[19], u16::from_be_bytes([r[20], r[21]])) }).collect();
+    let mut want: Vec<(u16, [u8; 16], u8, u8, u16)> = reqs.iter().map(|(id, dst, seq, _)| (*id, ip16(*dst), 0u8, 0u8, *seq)).collect();
+    got.sort(); want.sort();
+    if got != want && problems.is_empty() {
+        problems.push(format!("the client received the reply records {:?}, expected one echo reply per request: {:?}", got.iter().map(|r| (r.0, r.1[15], r.2, r.3, r.4)).collect::<Vec<_>>(), want.iter().map(|r| (r.0, r.1[15], r.2, r.3, r.4)).collect::<Vec<_>>()));
+    }
+    c.close();
+    Ok(problems)
+}
+
 fn main() {
     quiet_panics();
     install_logger();
@@ -173,6 +215,21 @@ fn main() {
                     rep.violation_with(format!("udpmux-h3:{}", class), p.join("; "), || json!({"scenario": desc, "problems": p}));
                 }
             }
+        }
+    }
+    // ---- the ICMP multiplexer over HTTP/3 (raw sockets on lo: needs root, otherwise skipped with a note)
+    let ep_icmp = start_endpoint(&server_rt, &EndpointOpts { allow_private: true, establishment_timeout: Duration::from_secs(5), icmp_interface: Some("lo".into()), ..Default::default() });
+    for (i, seg) in list.iter().enumerate().take(if tier_thorough() { 16 } else { 6 }) {
+        let desc = json!({"proto": "h3", "request": "CONNECT _icmp", "chunks_in_units": seg, "requests": 3});
+        let d2 = desc.clone();
+        watchdog::enter(move || ("icmpmux-h3:hang".into(), "scenario did not finish".into(), d2));
+        let r = catch(|| run_icmp(ep_icmp.addr, 400 + i as u32, seg)).unwrap_or_else(|p| Err(format!("client panic: {}", p)));
+        watchdog::leave();
+        match r {
+            Err(e) if e.contains("not answered 200") && i == 0 => { rep.note(format!("ICMP multiplexer over HTTP/3 not driven: {}", e)); break; }
+            Err(e) => { rep.eval(); rep.violation_with("icmpmux-h3:setup", e, || desc.clone()) }
+            Ok(p) if p.is_empty() => { rep.eval(); rep.nontrivial(format!("h3icmp|{:?}", seg)); rep.count("icmp_round_trips", 3) }
+            Ok(p) => { rep.eval(); rep.violation_with(format!("icmpmux-h3:{}", if p[0].contains("ended") { "ended" } else { "replies" }), p.join("; "), || json!({"scenario": desc, "problems": p})) }
         }
     }
     if !ep.is_running() { rep.violation_with("udpmux-h3:listener-died", "Core::listen returned while a multiplexer was being served", || json!({})); }
